@@ -219,9 +219,9 @@ def run(ctx):
     execs = 0
     tr = os.path.join(ctx.work, 'cover.ndjson')
     tot = controlled(ctx, exe, ['--scen', cover_scen, '--schedules', sched], tr, 'cover replay')
-    if tot.get('diverged', 0) or tot.get('stuck', 0) or tot.get('deadlocks', 0):
+    if tot.get('deadlocks', 0):      # (divergence / stuck steps are reported by ctx.driver itself)
         path = ctx.save_replay('%s-cover-replay.txt' % ctx.prop, 'driver totals %s\n\n%s' % (tot, ctx._trace_context(tr, sum(1 for _ in open(tr)))))
-        ctx.violation('driver:cover-replay', WHAT + ': the implementation cannot follow a behaviour of the specification', path)
+        ctx.violation('driver:cover-replay:deadlock', WHAT + ': a replayed behaviour of the specification deadlocks in the implementation', path)
     traces.append(tr)
     execs += tot.get('completed', 0)
     ctx.sample_trace(tr, 14, skip=8)
